@@ -223,6 +223,33 @@ EmitAlpnBuilder == BmOnce => \A q \in AlpnSeqs :
       exp |-> [value |-> value, issues |-> <<>>,
                params |-> ComposeTlvs(<< [k |-> 1, v |-> value] >>)]]))
 
+(* Values BUILT through the record types' own constructors (not obtained by *)
+(* parsing): every explored value is handed over field by field (names as   *)
+(* label tuples, type bitmaps as sets); the constructed value composes to   *)
+(* the table's octets and survives compose / parse like a parsed one.       *)
+EmitCtor == V => PrintT("CASE " \o ToJson(
+   [in |-> [mode |-> "ctor", rtype |-> CodeOf(t), fields |-> val,
+            strictOpts |-> (t = "OPT" => OptStrict(val[1]))],
+    exp |-> [ctor |-> "ok", issues |-> <<>>, rd |-> Exp(t, val)]]))
+
+(* ... and at the 65535-octet RDATA limit (LongRecordData): the last field  *)
+(* of the base value is n octets long, n around the room the other fields   *)
+(* leave.  Beyond the limit the constructor, or at the latest composing the *)
+(* length-prefixed RDATA, refuses; a wrong RDLENGTH is never written.       *)
+LongTypes == {"NULL", "DS", "CDS", "DNSKEY", "CDNSKEY", "RRSIG", "TSIG", "SSHFP", "TLSA",
+              "OPENPGPKEY", "ZONEMD", "CAA", "IPSECKEY", "TYPE99"}
+ASSUME \A x \in LongTypes : x \in Types /\ LayoutOf(x)[Len(LayoutOf(x))].kind \in {"Rest", "LP16"}
+\* the types whose constructor documents the refusal (Result<_, LongRecordData>);
+\* for the others composing the length-prefixed RDATA may be what refuses
+LongChecked == {"NULL", "DS", "CDS", "DNSKEY", "CDNSKEY", "RRSIG", "TSIG", "TYPE99"}
+LongRoom(x) == 65535 - RdLen(x, [Base(x) EXCEPT ![Len(LayoutOf(x))] = <<>>])
+EmitCtorLong == BmOnce => \A x \in LongTypes : \A d \in {-1, 0, 1} :
+  PrintT("CASE " \o ToJson(
+     [in |-> [mode |-> "ctorlong", rtype |-> CodeOf(x), fields |-> Base(x), n |-> LongRoom(x) + d, b |-> 7,
+              checked |-> x \in LongChecked],
+      exp |-> IF d <= 0 THEN [outcome |-> "ok", len |-> 65535 + d, advertised |-> 65535 + d, reparse |-> TRUE]
+              ELSE [outcome |-> "refused"]]))
+
 EmitPlain == V => PrintT("CASE " \o ToJson([in |-> In("plain", ComposeRd(t, val)), exp |-> Exp(t, val),
                                         dev |-> DevExp(t, val)]))
 EmitPtr ==
